@@ -157,4 +157,141 @@ def Buffer.abs (b : Buffer) : List UInt8 :=
 def Buffer.Inv (b : Buffer) : Prop :=
   b.storage.length = b.size ∧ b.used ≤ b.size ∧ (b.start < b.size ∨ (b.size = 0 ∧ b.start = 0))
 
+/-! ### Operations as data (used by the driver and by the trace theorems) -/
+
+inductive Op
+  | write (data : List UInt8)
+  | writeByte (v : UInt8)
+  | read (len : Nat)
+  | readByte
+  | reset
+  | readNFrom (script : List ReadResp) (n : Nat)
+  | writeTo (script : List WriteResp)
+  deriving Repr
+
+/-- What an operation returns to its caller. -/
+inductive Out
+  | count (n : Nat) (e : Err)
+  | err (e : Err)
+  | bytes (l : List UInt8) (e : Err)
+  | byte (v : Option UInt8) (e : Err)
+  | unit
+  deriving Repr, DecidableEq
+
+def Buffer.step (b : Buffer) : Op → Buffer × Out
+  | .write d => let (b', n, e) := b.write d; (b', .count n e)
+  | .writeByte v => let (b', e) := b.writeByte v; (b', .err e)
+  | .read len => let (b', out, e) := b.read len; (b', .bytes out e)
+  | .readByte => let (b', v, e) := b.readByte; (b', .byte v e)
+  | .reset => (b.reset, .unit)
+  | .readNFrom script n => let (b', r, e) := b.readNFrom script n; (b', .count r e)
+  | .writeTo script => let (b', out, e) := b.writeTo script; (b', .bytes out e)
+
+def Buffer.run (b : Buffer) : List Op → Buffer × List Out
+  | [] => (b, [])
+  | op :: ops =>
+    let (b', o) := b.step op
+    let (b'', os) := b'.run ops
+    (b'', o :: os)
+
+/-! ### Specification: a plain bounded FIFO queue
+
+`Write`, `WriteByte`, `Read`, `ReadByte` and `Reset` are functions of the queue
+contents. `ReadNFrom` and `WriteTo` hand the peer a buffer whose *length*
+depends on the ring layout (the first contiguous segment), so for them the
+specification is a relation: each call offers the peer any non-empty window
+that fits (at most the remaining request and the free space, resp. a
+non-empty prefix of the queue); everything else — what is appended/removed,
+the counts, when the loop stops, which error comes out — is fixed by the
+queue alone. -/
+
+structure Queue where
+  cap : Nat
+  data : List UInt8
+  deriving Repr
+
+def Queue.new (cap : Nat) : Queue := { cap := cap, data := [] }
+
+def Queue.write (q : Queue) (d : List UInt8) : Queue × Nat × Err :=
+  let n := min d.length (q.cap - q.data.length)
+  ({ q with data := q.data ++ d.take n }, n, if n < d.length then .full else .none)
+
+def Queue.writeByte (q : Queue) (v : UInt8) : Queue × Err :=
+  if q.data.length = q.cap then (q, .full) else ({ q with data := q.data ++ [v] }, .none)
+
+def Queue.read (q : Queue) (len : Nat) : Queue × List UInt8 × Err :=
+  if len = 0 then (q, [], .none)
+  else if q.data.length = 0 then (q, [], .eof)
+  else ({ q with data := q.data.drop len }, q.data.take len, .none)
+
+def Queue.readByte (q : Queue) : Queue × Option UInt8 × Err :=
+  match q.data with
+  | [] => (q, none, .eof)
+  | v :: rest => ({ q with data := rest }, some v, .none)
+
+def Queue.reset (q : Queue) : Queue := { q with data := [] }
+
+/-- The `ReadNFrom` loop on the queue: state `(data, n, result, err)`. -/
+inductive Queue.ReadNLoop (cap : Nat) :
+    List UInt8 → List ReadResp → Nat → Nat → Err → List UInt8 × Nat × Nat × Err → Prop
+  | done {q script n result err} :
+      ¬(n > 0 ∧ q.length ≠ cap ∧ err = .none) → ReadNLoop cap q script n result err (q, n, result, err)
+  | exhausted {q n result err} :
+      (n > 0 ∧ q.length ≠ cap ∧ err = .none) → ReadNLoop cap q [] n result err (q, n, result, .eof)
+  | call {q r rest n result err out} (offer : Nat) :
+      (n > 0 ∧ q.length ≠ cap ∧ err = .none) →
+      1 ≤ offer → offer ≤ n → offer ≤ cap - q.length →
+      ReadNLoop cap (q ++ r.bytes.take offer) rest (n - (r.bytes.take offer).length)
+        (result + (r.bytes.take offer).length) r.err out →
+      ReadNLoop cap q (r :: rest) n result err out
+
+/-- `ReadNFrom` on the queue. -/
+def Queue.ReadNFrom (q : Queue) (script : List ReadResp) (n : Nat) (res : Queue × Nat × Err) : Prop :=
+  ∃ d n' r e, Queue.ReadNLoop q.cap q.data script n 0 .none (d, n', r, e) ∧
+    res = ({ q with data := d }, r,
+      let e := if n' > 0 ∧ d.length = q.cap ∧ e = .none then Err.full else e
+      if e = .eof ∧ n' = 0 then Err.none else e)
+
+/-- The `WriteTo` loop on the queue: state `(data, handed to the writer, err)`. -/
+inductive Queue.WriteToLoop :
+    List UInt8 → List WriteResp → List UInt8 → Err → List UInt8 × List UInt8 × Err → Prop
+  | done {q script acc err} :
+      ¬(q.length > 0 ∧ err = .none) → WriteToLoop q script acc err (q, acc, err)
+  | exhausted {q acc err} :
+      (q.length > 0 ∧ err = .none) → WriteToLoop q [] acc err (q, acc, .peer)
+  | call {q r rest acc err out} (offer : Nat) :
+      (q.length > 0 ∧ err = .none) →
+      1 ≤ offer → offer ≤ q.length →
+      WriteToLoop (q.drop (min r.accept offer)) rest (acc ++ q.take (min r.accept offer))
+        (if r.fail ∨ min r.accept offer < offer then Err.peer else Err.none) out →
+      WriteToLoop q (r :: rest) acc err out
+
+def Queue.WriteTo (q : Queue) (script : List WriteResp) (res : Queue × List UInt8 × Err) : Prop :=
+  ∃ d, Queue.WriteToLoop q.data script [] .none (d, res.2.1, res.2.2) ∧ res.1 = { q with data := d }
+
+/-- `Chunks script d`: `d` is what a scripted reader delivers when successive
+calls are handed buffers of some lengths: a concatenation of prefixes of the
+responses of a prefix of the script, in order. -/
+inductive Chunks : List ReadResp → List UInt8 → Prop
+  | nil {script} : Chunks script []
+  | cons {r rest d} (k : Nat) : Chunks rest d → Chunks (r :: rest) (r.bytes.take k ++ d)
+
+/-- The queue a buffer represents. -/
+def Buffer.toQueue (b : Buffer) : Queue := { cap := b.size, data := b.abs }
+
+/-- One specification step. -/
+def Queue.Step (q : Queue) : Op → Queue × Out → Prop
+  | .write d, r => r = (let (q', n, e) := q.write d; (q', Out.count n e))
+  | .writeByte v, r => r = (let (q', e) := q.writeByte v; (q', Out.err e))
+  | .read len, r => r = (let (q', out, e) := q.read len; (q', Out.bytes out e))
+  | .readByte, r => r = (let (q', v, e) := q.readByte; (q', Out.byte v e))
+  | .reset, r => r = (q.reset, Out.unit)
+  | .readNFrom script n, r => ∃ q' c e, q.ReadNFrom script n (q', c, e) ∧ r = (q', Out.count c e)
+  | .writeTo script, r => ∃ q' out e, q.WriteTo script (q', out, e) ∧ r = (q', Out.bytes out e)
+
+/-- A specification run producing the given outputs and final queue. -/
+inductive Queue.Run : Queue → List Op → Queue → List Out → Prop
+  | nil {q} : Run q [] q []
+  | cons {q op q' o ops q'' os} : q.Step op (q', o) → Run q' ops q'' os → Run q (op :: ops) q'' (o :: os)
+
 end Mutagen.Model.Ring
